@@ -84,6 +84,17 @@ def single_op(case):
             got = np.asarray(op.apply(v), dtype=complex).reshape(-1)
             if not np.allclose(got, exp @ v, atol=ATOL):
                 return {**r, **fail("apply(v) != embedded matrix @ v", exp @ v, got, "single:apply")}
+        # "any state vector": the same basis state handed over as an integer array, a float32 / complex64 array, a Python list and a tuple
+        e_ = np.zeros(2 ** n, dtype=int)
+        e_[(2 ** n) // 3] = 1
+        for kind, v in (("int array", e_.copy()), ("float32 array", e_.astype(np.float32)), ("complex64 array", e_.astype(np.complex64)), ("list", [int(x) for x in e_]),
+                        ("float list", [float(x) for x in e_]), ("tuple", tuple(int(x) for x in e_))):
+            got = np.asarray(op.apply(v), dtype=complex).reshape(-1)
+            r["ops"] += 1
+            if got.shape != (2 ** n,) or not np.allclose(got, exp @ e_, atol=1e-6 if "32" in kind or "64 a" in kind else ATOL):
+                return {**r, **fail("apply(v) != embedded matrix @ v for v given as %s" % kind, exp @ e_, got, "single:apply-kind")}
+            if isinstance(v, np.ndarray) and not np.array_equal(v, e_):
+                return {**r, **fail("apply modified the %s it was given" % kind, e_, v, "single:apply-mutated")}
     return r
 
 
@@ -279,6 +290,45 @@ def history_pool(n):
     return [{"ops": [S[1], S[0]], "n": n}, {"ops": [S[1], S[0]], "n": n}, {"ops": [S[0], S[1]], "n": n}, {"ops": [S[3], S[2]], "n": n}, {"ops": [], "n": n}, {"ops": [S[4]], "n": n}]
 
 
+def construction_case(case):
+    """{'kind': how the operations are handed to Circuit(...)}: the circuit is what it was built from, whatever the caller does with the container afterwards"""
+    from orquestra.quantum import circuits as C
+    from orquestra.quantum.runners.symbolic_simulator import SymbolicSimulator
+    ops0 = [C.X(0), C.CNOT(0, 1)]
+    extra = [C.H(3), C.T(0)]
+    expU = L.embed(num(C.CNOT.matrix), (0, 1), 2) @ L.embed(num(C.X.matrix), (0,), 2)
+    kind = case["kind"]
+    src = list(ops0)
+    arg = {"list": src, "tuple": tuple(src), "iterator": iter(src), "generator": (o for o in src)}[kind]
+    c = C.Circuit(arg) if not case.get("n") else C.Circuit(arg, n_qubits=case["n"])
+    n = case.get("n") or 2
+    prefixes = [c]
+    # the caller goes on using its list (collecting prefixes of a growing program, clearing it, reversing it)
+    for step in case["mutations"]:
+        if step == "append":
+            src.append(extra[len(src) % 2])
+        elif step == "clear":
+            src.clear()
+        elif step == "reverse":
+            src.reverse()
+        elif step == "replace":
+            if src:
+                src[0] = C.Z(1)
+            else:
+                src.append(C.Z(1))
+        if [str(o) for o in c.operations] != [str(o) for o in ops0] or c.n_qubits != n:
+            return {"ok": False, "msg": "Circuit(%s): after the caller's %s of its own container the circuit reports operations %s on %s qubits" % (kind, step, [str(o) for o in c.operations], c.n_qubits),
+                    "expected": str([str(o) for o in ops0]), "sig": "construction:aliased"}
+        U = num(c.to_unitary())
+        exp = L.embed(expU, (0, 1), n) if n > 2 else expU
+        if U.shape != exp.shape or not np.allclose(U, exp, atol=ATOL):
+            return {"ok": False, "msg": "Circuit(%s): to_unitary changed after the caller's %s of its own container" % (kind, step), "sig": "construction:aliased-unitary"}
+        got = np.asarray(SymbolicSimulator().get_wavefunction(c).amplitudes, dtype=complex).reshape(-1)
+        if not np.allclose(got, exp[:, 0], atol=ATOL):
+            return {"ok": False, "msg": "Circuit(%s): simulated state changed after the caller's %s of its own container" % (kind, step), "sig": "construction:aliased-sim"}
+    return {"ok": True, "nt": True, "ops": 3 * len(case["mutations"]), "out": kind}
+
+
 def multiphase(case):
     """{'n':n,'thetas':[...],'i':basis index}: component k is multiplied by exp(i theta_k)"""
     from orquestra.quantum.circuits import MultiPhaseOperation
@@ -305,7 +355,7 @@ def empty_case(case):
     return r
 
 
-FUNCS = {"wide": wide_case, "sim_history": sim_history, "sim_single": simulate, "sim_sequences": simulate, "single_ops": single_op, "single_ops_symbolic": single_op, "sequences": sequence, "concat": concat, "simulators": simulate,
+FUNCS = {"construction": construction_case, "wide": wide_case, "sim_history": sim_history, "sim_single": simulate, "sim_sequences": simulate, "single_ops": single_op, "single_ops_symbolic": single_op, "sequences": sequence, "concat": concat, "simulators": simulate,
          "multiphase": multiphase, "empty": empty_case}
 
 TH = 0.3
@@ -450,5 +500,8 @@ def run(run):
     secs.append(Section("wide", wcases, wide_case, chunk=2, desc="registers of 7-10 (thorough 11) qubits: asymmetric 2- and 3-qubit gates on far-apart, descending and adjacent index tuples through apply / "
                         "lifted_matrix / to_unitary / SymbolicSimulator (matrices up to 10 qubits)"))
     secs.append(Section("multiphase", cases, multiphase, desc="MultiPhaseOperation.apply on every basis state"))
+    secs.append(Section("construction", [{"kind": k_, "mutations": list(m_), **({"n": nn} if nn else {})} for k_ in ("list", "tuple", "iterator", "generator") for nn in (None, 3)
+                                         for m_ in itertools.product(("append", "clear", "reverse", "replace"), repeat=2)], construction_case,
+                        desc="Circuit(list / tuple / iterator / generator): every pair of later mutations of the caller's own container leaves operations, width, matrix and simulated state as built"))
     secs.append(Section("empty", [{"n": n} for n in (1, 2, 3, 5)], empty_case, desc="empty circuit = identity"))
     run.run_sections(secs)
